@@ -253,10 +253,29 @@ def wl_snippet(ctx, idx, rng):
         if n <= np.iinfo(dt_).max:
             forms_n.append(dt_(n))      # narrow integer types: t + n may exceed the type's own range
     n = forms_n[int(rng.integers(len(forms_n)))]
+    small_cfg = use_dask and N >= 1000 and rng.random() < 0.5
     try:
-        out = pb.snippet(sig, targ, n)
+        if small_cfg:
+            import dask
+            with dask.config.set({"array.chunk-size": "4KiB"}):      # a small default chunk size; the signal is one chunk along time
+                out = pb.snippet(sig, targ, n)
+            ctx.count("dask_small_chunk_config")
+        else:
+            out = pb.snippet(sig, targ, n)
     except Exception:
         out = None      # judged by the monitor
+    if (not use_dask) and out is not None and np.dtype(dtype).kind in "fc" and rng.random() < 0.3:
+        # history: the signal's samples are updated in place (calibration), then the same snippet is requested again
+        try:
+            np.multiply(sig, 3, out=sig)
+            ctx.count("history[inplace_update_between_snippets]")
+        except Exception:
+            pass
+        else:
+            try:
+                pb.snippet(sig, targ, n)
+            except Exception:
+                pass
     if use_dask and out is not None and room >= 1:
         # two snippets of one lazy signal at different fractional offsets, evaluated in one graph
         t2 = float(rng.uniform(0, room))
